@@ -49,10 +49,11 @@ func runC06(c *ctx) {
 		"a.(($substringBefore)(\"z\"))", "a.([$substringBefore][0](\"z\"))", "a.((n > 0 ? $substringBefore : $substringAfter)(\"z\"))", "b.c.(($pad)(9, \"-\"))", "a.(($length)())",
 		"($f := $substringBefore; a.$f(\"z\"))", "a.($substringBefore ~> $uppercase)(\"z\")",
 		"$map([1,2,3], $string)", "$filter(items, function($v){$v.id > n}).id", "$each(b, function($v, $k){$k & $v})",
-		// resource use that adds up across goroutines: bounded recursion (32 goroutines x depth 60 is far more nesting than any
-		// single evaluation has)
-		"($f := function($d){$d <= 0 ? n : 1 + $f($d - 1)}; $f(60))", "($h := function($d){$d <= 0 ? a : $h($d - 1).$substringBefore(\"z\")}; $h(40))",
 	}
+	// resource use that adds up across goroutines: bounded recursion (32 goroutines x depth 60 is far more nesting than any
+	// single evaluation has).  Growing and shrinking goroutine stacks is expensive under the race detector, so these run in
+	// two short rounds of their own.
+	deep := []string{"($f := function($d){$d <= 0 ? n : 1 + $f($d - 1)}; $f(45))", "($h := function($d){$d <= 0 ? a : $h($d - 1).$substringBefore(\"z\")}; $h(20))"}
 	g := &pgen{r: r, noRand: true}
 	inputFor := func(k int) interface{} {
 		d := fullDoc(newRng(int64(k)*7919+c.seed), false)
@@ -66,13 +67,19 @@ func runC06(c *ctx) {
 		return d
 	}
 	rounds := c.scale(24, 200)
-	iters := c.scale(40, 150)
+	itersAll := c.scale(40, 150)
 	mismatches := 0
 	for round := 0; round < rounds && !c.tooMany(); round++ {
 		G := []int{2, 4, 8, 16, 32}[round%5]
 		mode := round % 3 // 0 shared Expr, 1 per-goroutine Expr, 2 with Compile/Register in parallel
 		nprogs := 6
+		iters := itersAll
 		var progs []string
+		if round == 11 || (!c.quick() && round%12 == 11) {
+			// the deep-recursion round: 32 goroutines, few iterations
+			G, iters = 32, 3
+			progs = append(progs, deep...)
+		}
 		for len(progs) < nprogs {
 			var p string
 			if r.chance(2, 3) {
@@ -164,5 +171,5 @@ func runC06(c *ctx) {
 			c.note(p, "programs", true)
 		}
 	}
-	c.rep.Exhaustive = append(c.rep.Exhaustive, fmt.Sprintf("%d rounds x (2,4,8,16,32 goroutines) x %d evaluations per goroutine; modes: shared Expr / Expr per goroutine / with Compile+Register in parallel", rounds, iters))
+	c.rep.Exhaustive = append(c.rep.Exhaustive, fmt.Sprintf("%d rounds x (2,4,8,16,32 goroutines) x %d evaluations per goroutine; modes: shared Expr / Expr per goroutine / with Compile+Register in parallel", rounds, itersAll))
 }
